@@ -1,6 +1,10 @@
 From Coq Require Import extraction.Extraction extraction.ExtrOcamlBasic.
 From TU Require Import Base C13_Model C13_Float.
-Definition run := run_C13F.
-Definition check := check_C13F.
-Definition agree := agree_C13F.
+(* run: the binary64 model on the RAW texts (clean + NFKC + segmentation computed by the model: rawify);
+   check: the executable statement on the implementation output, against the oracle fields;
+   agree: prep raw = oracle for every text, the harness' kf3_free / class flags = the model's, every f64 bit
+   for bit (except rayon's sum over more than 32 sequences) and within 2^-40 of the rational model *)
+Definition run := run_C13FN.
+Definition check := check_C13FN.
+Definition agree := agree_C13FN.
 Extraction "model.ml" run check agree.
